@@ -7,6 +7,8 @@
 import CTM.Model.StageFiles
 import CTM.Lemmas.Stats
 import CTM.Lemmas.Markers
+import CTM.Lemmas.TreeLeaves
+import CTM.Lemmas.TreeValidate
 import Mathlib.Data.List.Perm.Basic
 import Mathlib.Data.List.Nodup
 
@@ -436,6 +438,394 @@ theorem meanByName_permuteGenes (perm : List Nat) (f : StatsFile)
       have hrl := leafMeanRow_length f hw leaf row hr
       simp only [Option.bind_some, List.getElem?_eq_getElem hlt']
       exact permuteList_at perm row (by rw [hrl]; exact h) j hlt'
+
+end CTM.StageFiles
+
+namespace CTM.StageFiles
+open CTM CTM.Stats CTM.Markers
+
+/-! ### `downsample_genes`, `downsample_cells` -/
+
+theorem pick_eq_mapME (row : List Rat) : ∀ (idx : List Nat),
+    pick row idx = mapME (fun i => match row[i]? with
+      | none => .error SErr.badIndex
+      | some v => .ok v) idx := by
+  intro idx
+  induction idx with
+  | nil => rfl
+  | cons i is ih =>
+    simp only [pick, mapME]
+    cases row[i]? with
+    | none => rfl
+    | some v => simp only [ih]; cases mapME _ is <;> rfl
+
+theorem pickRows_eq_mapME (data : List (List Rat)) : ∀ (idx : List Nat),
+    pickRows data idx = mapME (fun i => match data[i]? with
+      | none => .error SErr.badIndex
+      | some v => .ok v) idx := by
+  intro idx
+  induction idx with
+  | nil => rfl
+  | cons i is ih =>
+    simp only [pickRows, mapME]
+    cases data[i]? with
+    | none => rfl
+    | some v => simp only [ih]; cases mapME _ is <;> rfl
+
+/-- selecting positions of a list: succeeds when all positions are inside, and entry `j` of the
+result is the entry at position `idx[j]` -/
+theorem pick_spec (row : List Rat) (idx : List Nat) (h : ∀ i ∈ idx, i < row.length) :
+    ∃ out, pick row idx = .ok out ∧ out.length = idx.length ∧
+      ∀ (j i : Nat), idx[j]? = some i → out[j]? = row[i]? := by
+  rw [pick_eq_mapME]
+  obtain ⟨out, ho⟩ := mapME_ok_of_forall (fun i => match row[i]? with
+      | none => Except.error SErr.badIndex
+      | some v => Except.ok v) idx (by
+    intro i hi
+    have := h i hi
+    exact ⟨row[i], by simp [this]⟩)
+  obtain ⟨h1, h2⟩ := mapME_ok_length _ _ _ ho
+  refine ⟨out, ho, h1, fun j i hj => ?_⟩
+  obtain ⟨b, hb, hf⟩ := h2 j i hj
+  rw [hb]
+  cases hr : row[i]? with
+  | none => simp [hr] at hf
+  | some v =>
+    simp only [hr, Except.ok.injEq] at hf
+    rw [hf]
+
+theorem pickRows_spec (data : List (List Rat)) (idx : List Nat) (h : ∀ i ∈ idx, i < data.length) :
+    ∃ out, pickRows data idx = .ok out ∧ out.length = idx.length ∧
+      ∀ (j i : Nat), idx[j]? = some i → out[j]? = data[i]? := by
+  rw [pickRows_eq_mapME]
+  obtain ⟨out, ho⟩ := mapME_ok_of_forall (fun i => match data[i]? with
+      | none => Except.error SErr.badIndex
+      | some v => Except.ok v) idx (by
+    intro i hi
+    have := h i hi
+    exact ⟨data[i], by simp [this]⟩)
+  obtain ⟨h1, h2⟩ := mapME_ok_length _ _ _ ho
+  refine ⟨out, ho, h1, fun j i hj => ?_⟩
+  obtain ⟨b, hb, hf⟩ := h2 j i hj
+  rw [hb]
+  cases hr : data[i]? with
+  | none => simp [hr] at hf
+  | some v =>
+    simp only [hr, Except.ok.injEq] at hf
+    rw [hf]
+
+/-- `[name_to_col[n] for n in sel]` succeeds when every selected name is known -/
+theorem colsOf_spec (names sel : List Gene) (h : ∀ g ∈ sel, g ∈ names) :
+    ∃ idx, colsOf names sel = .ok idx ∧ idx.length = sel.length ∧
+      (∀ i ∈ idx, i < names.length) ∧
+      ∀ (j : Nat) (g : Gene), sel[j]? = some g → ∃ i, idx[j]? = some i ∧ nameToIdx names g = some i := by
+  unfold colsOf
+  obtain ⟨idx, hi⟩ := mapME_ok_of_forall (fun g => match nameToIdx names g with
+      | some i => Except.ok i
+      | none => Except.error SErr.keyError) sel (by
+    intro g hg
+    obtain ⟨i, hi⟩ := nameToIdx_of_mem names g (h g hg)
+    exact ⟨i, by simp [hi]⟩)
+  obtain ⟨h1, h2⟩ := mapME_ok_length _ _ _ hi
+  have h3 : ∀ (j : Nat) (g : Gene), sel[j]? = some g →
+      ∃ i, idx[j]? = some i ∧ nameToIdx names g = some i := by
+    intro j g hj
+    obtain ⟨b, hb, hf⟩ := h2 j g hj
+    cases hn : nameToIdx names g with
+    | none => simp [hn] at hf
+    | some i =>
+      simp only [hn, Except.ok.injEq] at hf
+      exact ⟨i, by rw [hb, hf], rfl⟩
+  refine ⟨idx, hi, h1, ?_, h3⟩
+  intro i hi'
+  obtain ⟨j, hj, he⟩ := List.getElem_of_mem hi'
+  have hj' : j < sel.length := by omega
+  obtain ⟨i', hi1, hi2⟩ := h3 j sel[j] (List.getElem?_eq_getElem hj')
+  rw [List.getElem?_eq_getElem hj, he] at hi1
+  cases hi1
+  exact (List.getElem?_eq_some_iff.1 (nameToIdx_some names _ i hi2)).1
+
+/-- `downsample_genes` by NAME: column `j` of the result is the column of the name `sel[j]` -/
+theorem downsampleGenes_spec (m : Matrix) (sel : List Gene) (hsel : ∀ g ∈ sel, g ∈ m.geneIds)
+    (hw : ∀ row ∈ m.data, row.length = m.geneIds.length) :
+    ∃ out, downsampleGenes m sel = .ok out ∧ out.cellIds = m.cellIds ∧ out.geneIds = sel ∧
+      out.data.length = m.data.length ∧
+      ∀ (k j : Nat) (g : Gene), sel[j]? = some g →
+        (out.data[k]?.bind (·[j]?)) =
+          (m.data[k]?.bind (fun row => (nameToIdx m.geneIds g).bind (row[·]?))) := by
+  obtain ⟨idx, hc, _, hlt, hidx⟩ := colsOf_spec m.geneIds sel hsel
+  obtain ⟨d, hd⟩ := mapME_ok_of_forall (fun row => pick row idx) m.data (by
+    intro row hr
+    obtain ⟨out, ho, _⟩ := pick_spec row idx (fun i hi => by rw [hw row hr]; exact hlt i hi)
+    exact ⟨out, ho⟩)
+  obtain ⟨h1, h2⟩ := mapME_ok_length _ _ _ hd
+  refine ⟨{ cellIds := m.cellIds, geneIds := sel, data := d }, ?_, rfl, rfl, h1, ?_⟩
+  · unfold downsampleGenes
+    simp only [hc, hd]
+  · intro k j g hj
+    obtain ⟨i, hi1, hi2⟩ := hidx j g hj
+    simp only [hi2, Option.bind_some]
+    cases hk : m.data[k]? with
+    | none =>
+      have : d[k]? = none := by
+        rw [List.getElem?_eq_none_iff] at hk ⊢; omega
+      simp [this]
+    | some row =>
+      obtain ⟨b, hb, hf⟩ := h2 k row hk
+      obtain ⟨out, ho, _, hent⟩ := pick_spec row idx (fun i hi => by
+        rw [hw row (List.mem_of_getElem? hk)]; exact hlt i hi)
+      rw [ho] at hf
+      cases hf
+      simp only [hb, Option.bind_some]
+      exact hent j i hi1
+
+/-- `downsample_cells` by NAME: row `i` of the result is the row of the name `sel[i]` -/
+theorem downsampleCells_spec (m : Matrix) (sel : List Nat) (hsel : ∀ c ∈ sel, c ∈ m.cellIds)
+    (hlen : m.data.length = m.cellIds.length) :
+    ∃ out, downsampleCells m sel = .ok out ∧ out.cellIds = sel ∧ out.geneIds = m.geneIds ∧
+      out.data.length = sel.length ∧
+      ∀ (i : Nat) (c : Nat), sel[i]? = some c →
+        ∃ r, nameToIdx m.cellIds c = some r ∧ out.data[i]? = m.data[r]? := by
+  obtain ⟨idx, hc, hl, hlt, hidx⟩ := colsOf_spec m.cellIds sel hsel
+  obtain ⟨d, hd, hdl, hent⟩ := pickRows_spec m.data idx (fun i hi => by rw [hlen]; exact hlt i hi)
+  refine ⟨{ cellIds := sel, geneIds := m.geneIds, data := d }, ?_, rfl, rfl, by simp [hdl, hl], ?_⟩
+  · unfold downsampleCells
+    simp only [hc, hd]
+  · intro i c hi
+    obtain ⟨r, hr1, hr2⟩ := hidx i c hi
+    exact ⟨r, hr2, hent i r hr1⟩
+
+end CTM.StageFiles
+
+namespace CTM.StageFiles
+open CTM CTM.Stats CTM.Markers
+
+/-! ### the mapper: per-node matrices -/
+
+theorem createCache_names (t : RawTree) (lk : Lookup) (R Q : List Gene) (m : Nat) (c : Cache)
+    (h : createCache (some t) lk R Q m = .ok c) : c.refNames = R ∧ c.queryNames = Q := by
+  obtain ⟨_, _, _, _, _, _, _, _, hc⟩ := createCache_ok_parts t lk R Q m c h
+  subst hc
+  exact ⟨rfl, rfl⟩
+
+theorem rowsFor_mem (R Q : List Gene) (ps : List (Nat × Nat)) (gs : List Gene) (h : RowsFor R Q ps gs) :
+    ∀ g ∈ gs, g ∈ R ∧ g ∈ Q := by
+  intro g hg
+  obtain ⟨p, _, h1, h2⟩ := (rowsFor_row R Q ps gs h).2 g hg
+  exact ⟨List.mem_of_getElem? h1, List.mem_of_getElem? h2⟩
+
+/-- the level below a parent exists -/
+theorem childLevelOf_some (t : RawTree) (hT : TreeWF t) (p : PKey) (hp : p ∈ t.allParents) :
+    ∃ cl, childLevelOf t p = some cl := by
+  cases p with
+  | none =>
+    cases hh : t.hierarchy with
+    | nil => exact absurd hh hT.hierNonempty
+    | cons a l => exact ⟨a, by simp [childLevelOf, hh]⟩
+  | some ln =>
+    obtain ⟨l, n⟩ := ln
+    obtain ⟨hl, _⟩ := (mem_allParents t l n).1 hp
+    obtain ⟨i, hi, he⟩ := List.getElem_of_mem hl
+    have hlen : i + 1 < t.hierarchy.length := by
+      have := List.length_dropLast (xs := t.hierarchy); omega
+    have he' : t.hierarchy[i]'(by omega) = l := by
+      rw [← he, List.getElem_dropLast]
+    refine ⟨t.hierarchy[i + 1], ?_⟩
+    simp only [childLevelOf]
+    rw [← he', RawTree.childLevel_getElem hT.hierNodup (by omega)]
+    exact List.getElem?_eq_getElem hlen
+
+theorem leavesUnder_ok (t : RawTree) (hT : TreeWF t) (p : PKey) (hp : p ∈ t.allParents)
+    (hc : Consulted t p) : ∃ leaves, leavesUnder t p = .ok leaves := by
+  obtain ⟨ch, hch, _⟩ := hc
+  obtain ⟨cl, hcl⟩ := childLevelOf_some t hT p hp
+  have : t.children p = .ok ch := by
+    unfold childrenOf at hch
+    cases h : t.children p with
+    | ok c => simp only [h, Except.ok.injEq] at hch; rw [hch]
+    | error e => simp [h] at hch
+  exact ⟨RawTree.sortNat (ch.flatMap (t.asLeaves cl)), by simp only [leavesUnder, this, hcl]⟩
+
+/-- **the matrices of one node**: with a statistics file whose leaves all have a row, a marker
+cache created for the file's gene names and the query's gene names, and a rectangular query
+matrix, `assemble_query_data` succeeds for every consulted parent; column `j` of both matrices
+is the gene NAMED `names[j]`, row `i` of the reference matrix is the leaf NAMED
+`reference.cellIds[i]`.  `hsub`: the leaves below the parent are leaves of the stored taxonomy
+(true for a validated tree, `leavesUnder_sub`). -/
+theorem mapperNode_spec (f : StatsFile) (lk : Lookup) (query : Matrix) (m : Nat) (p : PKey)
+    (c : Cache) (hT : TreeWF f.tree)
+    (hq : ∀ row ∈ query.data, row.length = query.geneIds.length) (hf : FileOK f)
+    (hp : p ∈ f.tree.allParents) (hc : Consulted f.tree p)
+    (hcache : createCache (some f.tree) lk f.colNames query.geneIds m = .ok c)
+    (hsub : ∀ leaves, leavesUnder f.tree p = .ok leaves → ∀ leaf ∈ leaves, leaf ∈ leavesOf f.tree) :
+    ∃ names nd, mapperNode f lk query m p = .ok nd ∧ nd.query.geneIds = names ∧
+      nd.reference.geneIds = names ∧
+      (∀ g, g ∈ names ↔ g ∈ specGenes f.tree lk query.geneIds m p) ∧ names.Nodup ∧
+      leavesUnder f.tree p = .ok nd.reference.cellIds ∧ nd.query.cellIds = query.cellIds ∧
+      nd.reference.data.length = nd.reference.cellIds.length ∧
+      nd.query.data.length = query.data.length ∧
+      (∀ (i : Nat) (leaf : Leaf) (j : Nat) (g : Gene), nd.reference.cellIds[i]? = some leaf →
+        names[j]? = some g → (nd.reference.data[i]?.bind (·[j]?)) = meanByName f leaf g) ∧
+      (∀ (k j : Nat) (g : Gene), names[j]? = some g →
+        (nd.query.data[k]?.bind (·[j]?)) =
+          (query.data[k]?.bind (fun row => (nameToIdx query.geneIds g).bind (row[·]?)))) := by
+  obtain ⟨rows, names, hg, hrf, _, _, _, hmem, hnd⟩ :=
+    createCache_group f.tree (treeOK_of_wf f.tree hT) lk f.colNames query.geneIds m c hcache p hp hc
+  obtain ⟨hR, hQ⟩ := createCache_names _ _ _ _ _ _ hcache
+  obtain ⟨hnR, hnQ⟩ := rowsFor_namesAt _ _ _ _ hrf
+  obtain ⟨means, hmeans⟩ := leafMeans_ok f hf
+  obtain ⟨hm1, hm2, hm3, hm4⟩ := leafMeans_shape f means hmeans
+  obtain ⟨leaves, hleaves⟩ := leavesUnder_ok f.tree hT p hp hc
+  have hinR := rowsFor_mem _ _ _ _ hrf
+  -- the query side
+  obtain ⟨qd, hqd, hqc, hqg, hql, hqe⟩ := downsampleGenes_spec query names
+    (fun g hg => (hinR g hg).2) hq
+  -- the rows of the leaves
+  obtain ⟨sub, hsd, hsc, hsg, hsl, hse⟩ := downsampleCells_spec means leaves (by
+    intro leaf hl
+    rw [hm1, mem_sortNat]
+    exact hsub leaves hleaves leaf hl) hm3
+  -- every row of `sub` is the row read for its leaf
+  have hrow : ∀ (i : Nat) (leaf : Leaf), leaves[i]? = some leaf →
+      ∃ row, sub.data[i]? = some row ∧ leafMeanRow f leaf = .ok row ∧
+        row.length = f.colNames.length := by
+    intro i leaf hi
+    obtain ⟨r, hr1, hr2⟩ := hse i leaf hi
+    obtain ⟨row, hrow1, hrow2⟩ := hm4 r leaf (nameToIdx_some _ _ _ hr1)
+    refine ⟨row, by rw [hr2, hrow1], hrow2, ?_⟩
+    obtain ⟨r', row', h1, h2, h3⟩ := hf leaf (hsub leaves hleaves leaf (List.mem_of_getElem? hi))
+    rw [leafMeanRow_of_row f leaf r' row' h1 h2 h3] at hrow2
+    cases hrow2
+    simpa using h3
+  obtain ⟨rd, hrd, hrc, hrg, hrl, hre⟩ := downsampleGenes_spec sub names
+    (fun g hg => by rw [hsg, hm2]; exact (hinR g hg).1) (by
+    intro row hr
+    obtain ⟨i, hi, he⟩ := List.getElem_of_mem hr
+    have hi' : i < leaves.length := by omega
+    obtain ⟨row', h1, _, h3⟩ := hrow i leaves[i] (List.getElem?_eq_getElem hi')
+    rw [List.getElem?_eq_getElem hi, he] at h1
+    cases h1
+    rw [hsg, hm2]
+    exact h3)
+  refine ⟨names, { query := qd, reference := rd }, ?_, hqg, hrg, hmem, hnd, ?_, hqc, ?_, hql, ?_, ?_⟩
+  · unfold mapperNode
+    simp only [hmeans, hcache]
+    unfold assembleData
+    simp only [hleaves, hg, hQ, hR, hnQ, hnR, hqd, hsd, hrd, hqg, hrg, bne_self_eq_false,
+      Bool.false_eq_true, if_false]
+  · simp only [hrc, hsc]
+    exact hleaves
+  · simp only [hrl, hrc, hsl, hsc]
+  · intro i leaf j g hi hj
+    simp only [hrc, hsc] at hi
+    obtain ⟨row, h1, h2, _⟩ := hrow i leaf hi
+    simp only
+    rw [hre i j g hj, h1, hsg, hm2]
+    simp only [Option.bind_some, meanByName, h2]
+    cases nameToIdx f.colNames g <;> rfl
+  · intro k j g hj
+    exact hqe k j g hj
+
+end CTM.StageFiles
+
+namespace CTM.StageFiles
+open CTM CTM.Stats CTM.Markers
+
+theorem leavesOf_eq (t : RawTree) (hne : t.hierarchy ≠ []) :
+    leavesOf t = t.nodesAt (t.hierarchy[t.hierarchy.length - 1]'(by
+      have := List.length_pos_iff.2 hne; omega)) := by
+  simp only [leavesOf, RawTree.leafLevel_eq hne]
+
+/-- in a strict tree (what `validate_taxonomy_tree` accepts) the leaves below a parent are
+leaves of the taxonomy -/
+theorem leavesUnder_sub (t : RawTree) (hT : TreeWF t) (s : RawTree.Strict t) (p : PKey)
+    (hp : p ∈ t.allParents) (leaves : List Leaf) (h : leavesUnder t p = .ok leaves) :
+    ∀ leaf ∈ leaves, leaf ∈ leavesOf t := by
+  intro leaf hl
+  rw [leavesOf_eq t hT.hierNonempty]
+  have hpos := List.length_pos_iff.2 hT.hierNonempty
+  unfold leavesUnder at h
+  cases p with
+  | none =>
+    have h0 : t.hierarchy.head? = some t.hierarchy[0] := by
+      rw [List.head?_eq_getElem?]; exact List.getElem?_eq_getElem hpos
+    simp only [RawTree.children, childLevelOf, h0, Except.ok.injEq] at h
+    subst h
+    rw [mem_sortNat, List.mem_flatMap] at hl
+    obtain ⟨n, hn, ha⟩ := hl
+    exact RawTree.asLeaves_sub_leaf s hT.hierNodup hpos hn ha
+  | some ln =>
+    obtain ⟨l, n⟩ := ln
+    obtain ⟨hl', hn⟩ := (mem_allParents t l n).1 hp
+    obtain ⟨i, hi, he⟩ := List.getElem_of_mem hl'
+    have hlen : i + 1 < t.hierarchy.length := by
+      have := List.length_dropLast (xs := t.hierarchy); omega
+    have he' : t.hierarchy[i]'(by omega) = l := by
+      rw [← he, List.getElem_dropLast]
+    subst he'
+    have hcl : childLevelOf t (some (t.hierarchy[i], n)) = some t.hierarchy[i + 1] := by
+      simp only [childLevelOf]
+      rw [RawTree.childLevel_getElem hT.hierNodup (by omega)]
+      exact List.getElem?_eq_getElem hlen
+    have hlv : (t.levels.map (·.1)).contains t.hierarchy[i] = true := by
+      simpa using hT.hasLevels _ (List.getElem_mem _)
+    have hnn : (t.nodesAt t.hierarchy[i]).contains n = true := by simpa using hn
+    simp only [RawTree.children, hlv, hnn, hcl, Bool.not_true, Bool.false_eq_true, if_false,
+      Except.ok.injEq] at h
+    subst h
+    rw [mem_sortNat, List.mem_flatMap] at hl
+    obtain ⟨c, hc, ha⟩ := hl
+    exact RawTree.asLeaves_sub_leaf s hT.hierNodup hlen (s.entry_sub hlen hn hc) ha
+
+end CTM.StageFiles
+
+namespace CTM.StageFiles
+open CTM CTM.Stats CTM.Markers
+
+/-! ### both rearrangements at once -/
+
+theorem meanByName_permuteRows (perm : List Nat) (f : StatsFile) (h : IsPerm perm f.data.length)
+    (leaf : Leaf) (g : Gene) : meanByName (permuteRows perm f) leaf g = meanByName f leaf g := by
+  unfold meanByName
+  rw [leafMeanRow_permuteRows perm f h leaf]
+  rfl
+
+theorem meanByName_permute (σ π : List Nat) (f : StatsFile) (hσ : IsPerm σ f.data.length)
+    (hπ : IsPerm π f.colNames.length) (hn : f.colNames.Nodup)
+    (hw : ∀ row ∈ f.data, row.genes.length = f.colNames.length) (leaf : Leaf) (g : Gene) :
+    meanByName (permuteGenes π (permuteRows σ f)) leaf g = meanByName f leaf g := by
+  rw [meanByName_permuteGenes π (permuteRows σ f) hπ hn (by
+    intro row hr
+    exact hw row ((permuteList_mem σ f.data hσ row).1 hr))]
+  exact meanByName_permuteRows σ f hσ leaf g
+
+theorem fileOK_permuteRows (σ : List Nat) (f : StatsFile) (hσ : IsPerm σ f.data.length)
+    (h : FileOK f) : FileOK (permuteRows σ f) := by
+  intro leaf hl
+  obtain ⟨r, row, h1, h2, h3⟩ := h leaf hl
+  have hr : r < f.data.length := (List.getElem?_eq_some_iff.1 h2).1
+  have hr' : r < σ.length := by rw [hσ.length_eq]; exact hr
+  refine ⟨σ[r], row, ?_, ?_, h3⟩
+  · simp only [permuteRows]
+    rw [lookup_map_snd _ (by intro p; cases hp : σ[p.2]? <;> simp) leaf, h1]
+    simp [hr']
+  · simp only [permuteRows]
+    rw [permuteList_at σ f.data hσ r hr', h2]
+
+theorem fileOK_permuteGenes (π : List Nat) (f : StatsFile) (hπ : IsPerm π f.colNames.length)
+    (h : FileOK f) : FileOK (permuteGenes π f) := by
+  intro leaf hl
+  obtain ⟨r, row, h1, h2, h3⟩ := h leaf hl
+  refine ⟨r, { row with genes := permuteList π row.genes }, h1, ?_, ?_⟩
+  · simp only [permuteGenes, List.getElem?_map, h2, Option.map_some]
+  · simp only [permuteGenes]
+    rw [permuteList_length π row.genes (by rw [h3]; exact hπ), permuteList_length π f.colNames hπ]
+    exact h3
+
+theorem fileOK_permute (σ π : List Nat) (f : StatsFile) (hσ : IsPerm σ f.data.length)
+    (hπ : IsPerm π f.colNames.length) (h : FileOK f) :
+    FileOK (permuteGenes π (permuteRows σ f)) :=
+  fileOK_permuteGenes π (permuteRows σ f) hπ (fileOK_permuteRows σ f hσ h)
 
 end CTM.StageFiles
 
